@@ -188,6 +188,10 @@ pub fn guarded<R>(f: impl FnOnce() -> R) -> std::thread::Result<R> {
     r
 }
 
+pub fn last_panic_message() -> String {
+    LAST_PANIC.with(|p| p.borrow().clone()).unwrap_or_default()
+}
+
 fn take_panic() -> String {
     LAST_PANIC.with(|p| p.borrow_mut().take()).unwrap_or_else(|| "panic".into())
 }
